@@ -148,10 +148,7 @@ class DynBaseRefDict(RefDict):
                         impl[rootlen+1:]) # +1 to remove preceding dot
                 else:
                     if value.refmode == "auto":
-                        if value.is_defined():
-                            return value
-                        else:
-                            return value.direct_bases[0]
+                        return value    # Out of root: stay static
 
                     elif value.refmode == "relative":
                         raise ValueError(
